@@ -17,7 +17,11 @@ Is(e) == l <= Len(TraceLog) /\ Ev.e = e /\ l' = l + 1
 TInit == l = 2 /\ ref = <<>> /\ nb = 0 /\ pos = 0
 TReset == Is("reset") /\ ref' = <<>> /\ nb' = 0 /\ pos' = 0
 \* the reference: the items applied by restoring the intact file, the first nb of them block images
+\* - and the rest exactly the commits the source made while the snapshot was written (all of them at its end, after the last
+\* block image: so every one is in the recorded log), ONE item per commit: a commit boundary of the file is a commit of the source
 TRef   == Is("pref")   /\ ref' = Ev.items /\ nb' = Ev.nb /\ pos' = 0
+          /\ Len(Ev.items) = Ev.nb + Len(Ev.rec)
+          /\ \A i \in 1..Len(Ev.rec) : Ev.items[Ev.nb + i] = Ev.rec[i]
 TBegin == Is("pbegin") /\ pos' = 0 /\ UNCHANGED <<ref, nb>>
 \* the next item applied by a restore of a prefix: exactly the next reference item
 TItem  == Is("pitem")  /\ pos < Len(ref) /\ Ev.digest = ref[pos + 1] /\ pos' = pos + 1 /\ UNCHANGED <<ref, nb>>
